@@ -48,8 +48,12 @@ func c10Bytes(c *hx.Ctx, b []byte, class string) {
 	desc := map[string]any{"kind": "id-bytes", "class": class, "bytes": hx.Hex(b)}
 	var id peer.ID
 	var err error
-	p, _ := hx.Catch(func() { id, err = peer.IDFromBytes(b) })
-	c.Case(hx.App("IdBytes", hx.Bytes(b), obsBytes(p, []byte(id), err, 0)), desc)
+	var p bool
+	o := guarded(c, "IDFromBytes", desc, [][]byte{b}, func() string {
+		p, _ = hx.Catch(func() { id, err = peer.IDFromBytes(b) })
+		return obsBytes(p, []byte(id), err, 0)
+	})
+	c.Case(hx.App("IdBytes", hx.Bytes(b), o), desc)
 	if p {
 		c.Failf("idfrombytes-panic", desc, "IDFromBytes panicked")
 		return
@@ -70,13 +74,17 @@ func c10Bytes(c *hx.Ctx, b []byte, class string) {
 	// ExtractPublicKey on the same bytes (cast, as the rest of the code base does)
 	var pk crypto.PubKey
 	var xerr error
-	p, _ = hx.Catch(func() { pk, xerr = peer.ID(b).ExtractPublicKey() })
 	var raw []byte
-	if !p && xerr == nil {
-		raw, _ = pk.Raw()
-	}
 	d2 := map[string]any{"kind": "extract", "class": class, "bytes": hx.Hex(b)}
-	c.Case(hx.App("Extract", hx.Bytes(b), obsBytes(p, raw, xerr, extractClass(xerr))), d2)
+	o = guarded(c, "ExtractPublicKey", d2, [][]byte{b}, func() string {
+		raw = nil
+		p, _ = hx.Catch(func() { pk, xerr = peer.ID(b).ExtractPublicKey() })
+		if !p && xerr == nil {
+			raw, _ = pk.Raw()
+		}
+		return obsBytes(p, raw, xerr, extractClass(xerr))
+	})
+	c.Case(hx.App("Extract", hx.Bytes(b), o), d2)
 	if p {
 		c.Failf("extract-panic", d2, "ExtractPublicKey panicked")
 		return
@@ -104,8 +112,12 @@ func c10Text(c *hx.Ctx, s string, class string) {
 	// the library against the specification
 	var raw []byte
 	var rerr error
-	p, _ := hx.Catch(func() { raw, rerr = b58.Decode(s) })
-	c.Case(hx.App("RawB58Dec", hx.Str(s), obsBytes(p, raw, rerr, 58)), desc)
+	var p bool
+	o := guarded(c, "base58.Decode", desc, nil, func() string {
+		p, _ = hx.Catch(func() { raw, rerr = b58.Decode(s) })
+		return obsBytes(p, raw, rerr, 58)
+	})
+	c.Case(hx.App("RawB58Dec", hx.Str(s), o), desc)
 	if p {
 		c.Failf("b58-decode-panic", desc, "base58 Decode panicked")
 		return
@@ -127,12 +139,15 @@ func c10Text(c *hx.Ctx, s string, class string) {
 	}
 	var id peer.ID
 	var err error
-	p, _ = hx.Catch(func() { id, err = peer.IDB58Decode(s) })
 	cl := 0
 	if rerr != nil {
 		cl = 58
 	}
-	c.Case(hx.App("B58Dec", hx.Str(s), obsBytes(p, []byte(id), err, cl)), desc)
+	o = guarded(c, "IDB58Decode", desc, nil, func() string {
+		p, _ = hx.Catch(func() { id, err = peer.IDB58Decode(s) })
+		return obsBytes(p, []byte(id), err, cl)
+	})
+	c.Case(hx.App("B58Dec", hx.Str(s), o), desc)
 	if p {
 		c.Failf("idb58decode-panic", desc, "IDB58Decode panicked")
 		return
@@ -150,7 +165,6 @@ func c10Text(c *hx.Ctx, s string, class string) {
 	var pid peer.ID
 	var perr error
 	p, _ = hx.Catch(func() { pid, perr = confparse.ParsePeerID(s) })
-	var o string
 	switch {
 	case p:
 		o = oPanic
@@ -248,9 +262,11 @@ func c10(c *hx.Ctx) {
 		if id2 == id {
 			c.Failf("id-collision", desc, "flipping a key bit does not change the id")
 		}
-		if id.MatchesPublicKey(pk2) {
+		m2 := id.MatchesPublicKey(pk2)
+		if m2 {
 			c.Failf("matches-other-key", desc, "id matches a key that differs in one bit")
 		}
+		c.Case(hx.App("Matches", hx.Bytes([]byte(id)), hx.Bytes(raw2), hx.Bool(m2)), desc)
 		ids = append(ids, []byte(id))
 		pks = append(pks, raw)
 	}
@@ -288,6 +304,10 @@ func c10(c *hx.Ctx) {
 		case 8:
 			b, class = c.RandBytes(c.Rng.Intn(12)), "random-short"
 		case 9:
+			if c.Rng.Intn(2) == 0 { // code present, length varint missing or cut
+				b, class = cat(id[:1], bytes.Repeat([]byte{0x80}, c.Rng.Intn(3))), "truncated-length-varint"
+				break
+			}
 			b, class = [][]byte{{}, {0}, {0, 0}, {0x80}, {0, 0x80}, {0, 1, 7}, {0x12, 1, 0xaa}, {0x80, 0, 0x80, 0}}[c.Rng.Intn(8)], "tiny"
 		case 10: // identity multihash of an arbitrary digest
 			d := c.RandBytes(c.Rng.Intn(40))
@@ -301,7 +321,7 @@ func c10(c *hx.Ctx) {
 				ty = []uint64{0, 2, 3, 1 << 31}[c.Rng.Intn(4)]
 			}
 			data := id[len(id)-32:]
-			if c.Rng.Intn(5) == 0 {
+			if c.Rng.Intn(3) == 0 {
 				data = c.RandBytes([]int{0, 31, 33, 64}[c.Rng.Intn(4)])
 			}
 			pb, pc := randProto(c, ty, data)
@@ -309,13 +329,17 @@ func c10(c *hx.Ctx) {
 			// also the bare decoder
 			var pk crypto.PubKey
 			var uerr error
-			p, _ := hx.Catch(func() { pk, uerr = crypto.UnmarshalPublicKey(pb) })
-			var raw []byte
-			if !p && uerr == nil {
-				raw, _ = pk.Raw()
-			}
+			var p bool
 			ud := map[string]any{"kind": "unmarshal-pub", "class": pc, "bytes": hx.Hex(pb)}
-			c.Case(hx.App("UnmarshalPub", hx.Bytes(pb), obsBytes(p, raw, uerr, extractClass(uerr))), ud)
+			uo := guarded(c, "UnmarshalPublicKey", ud, [][]byte{pb}, func() string {
+				var raw []byte
+				p, _ = hx.Catch(func() { pk, uerr = crypto.UnmarshalPublicKey(pb) })
+				if !p && uerr == nil {
+					raw, _ = pk.Raw()
+				}
+				return obsBytes(p, raw, uerr, extractClass(uerr))
+			})
+			c.Case(hx.App("UnmarshalPub", hx.Bytes(pb), uo), ud)
 			if p {
 				c.Failf("unmarshalpublickey-panic", ud, "UnmarshalPublicKey panicked")
 			}
